@@ -37,7 +37,7 @@ func chkRow(t *state.VerifStoreTables, node, id string) *structs.HealthCheck {
 func isServiceQuery(q *query) bool {
 	switch q.Kind {
 	case "ServiceNodes", "CheckServiceNodes", "ServiceTagNodes", "CheckServiceTagNodes", "ConnectServiceNodes", "CheckConnectServiceNodes",
-		"ServiceDump", "CheckIngressServiceNodes", "ServiceTopology", "ServiceGateways":
+		"ServiceDumpKind":
 		return true
 	}
 	return false
@@ -46,12 +46,26 @@ func isServiceQuery(q *query) bool {
 // renamedInPlace: an instance (node, id) present before and after the write changed its service name
 // (ensureServiceTxn -> catalogInsertService bumps only the NEW name's index row; the old name loses an
 // instance without its index row or the extinction index moving).
+// about: is the instance one the query's answer is built from?
+func about(q *query, v *structs.ServiceNode) bool {
+	switch q.Kind {
+	case "ServiceDumpKind":
+		return string(v.ServiceKind) == q.Arg || (v.ServiceKind == "" && q.Arg == string(structs.ServiceKindTypical))
+	case "ConnectServiceNodes", "CheckConnectServiceNodes":
+		return lower(connectTarget(v)) == lower(q.Service)
+	}
+	return lower(v.ServiceName) == lower(q.Service)
+}
+
 func renamedInPlace(q *query, b, a *state.VerifStoreTables) bool {
 	if !isServiceQuery(q) {
 		return false
 	}
 	for _, v := range b.Services {
-		if w := svcRow(a, v.Node, v.ServiceID); w != nil && lower(w.ServiceName) != lower(v.ServiceName) && lower(v.ServiceName) == lower(q.Service) {
+		if v.PeerName != q.Peer {
+			continue
+		}
+		if w := svcRow(a, v.Node, v.ServiceID); w != nil && lower(w.ServiceName) != lower(v.ServiceName) && about(q, v) {
 			return true
 		}
 	}
@@ -73,11 +87,11 @@ func checkRebound(q *query, b, a *state.VerifStoreTables) bool {
 		if c.ServiceID == "" {
 			// node-level before: every instance on the node showed it
 			for _, v := range b.Services {
-				if lower(v.Node) == lower(c.Node) && lower(v.ServiceName) == lower(q.Service) && lower(v.ServiceID) != lower(d.ServiceID) {
+				if lower(v.Node) == lower(c.Node) && about(q, v) && lower(v.ServiceID) != lower(d.ServiceID) {
 					return true
 				}
 			}
-		} else if v := svcRow(b, c.Node, c.ServiceID); v != nil && lower(v.ServiceName) == lower(q.Service) {
+		} else if v := svcRow(b, c.Node, c.ServiceID); v != nil && about(q, v) {
 			return true
 		}
 	}
@@ -96,7 +110,7 @@ func staleCheckName(q *query, b, a *state.VerifStoreTables) bool {
 			continue
 		}
 		v := svcRow(b, c.Node, c.ServiceID)
-		if v == nil || lower(v.ServiceName) == lower(c.ServiceName) || lower(v.ServiceName) != lower(q.Service) {
+		if v == nil || lower(v.ServiceName) == lower(c.ServiceName) || !about(q, v) {
 			continue
 		}
 		if chkRow(a, c.Node, string(c.CheckID)) == nil {
@@ -133,11 +147,111 @@ func treeDeletes(op *storex.Op) (out []string) {
 	return
 }
 
+// ---- Part B mechanisms (Connect, gateways, peers)
+
+// connectTarget: the service name whose Connect queries list this instance ("" = none)
+func connectTarget(v *structs.ServiceNode) string {
+	switch {
+	case v.ServiceKind == structs.ServiceKindConnectProxy:
+		return v.ServiceProxy.DestinationServiceName
+	case v.ServiceConnect.Native:
+		return v.ServiceName
+	}
+	return ""
+}
+
+func hasName(t *state.VerifStoreTables, name string) bool {
+	for _, v := range t.Services {
+		if v.PeerName == "" && lower(v.ServiceName) == lower(name) {
+			return true
+		}
+	}
+	return false
+}
+
+// proxyNameExtinct: a Connect instance of the target was registered under a service name that has no
+// instance left after the write, while other Connect instances remain: checkServiceNodesTxn takes the max
+// over the names still present and never looks at the extinction index.
+func proxyNameExtinct(q *query, b, a *state.VerifStoreTables) bool {
+	for _, v := range b.Services {
+		if v.PeerName == "" && lower(connectTarget(v)) == lower(q.Service) && !hasName(a, v.ServiceName) {
+			return true
+		}
+	}
+	return false
+}
+
+// hasProxyFor: some instance answers Connect queries for the target under ANOTHER service name
+func hasProxyFor(q *query, t *state.VerifStoreTables) bool {
+	for _, v := range t.Services {
+		if v.PeerName == "" && lower(connectTarget(v)) == lower(q.Service) && lower(v.ServiceName) != lower(q.Service) {
+			return true
+		}
+	}
+	return false
+}
+
+// gatewayLinkRemoved: a gateway-services row naming the service (or the wildcard) disappeared
+func gatewayLinkRemoved(q *query, gb, ga []string) bool {
+	after := map[string]bool{}
+	for _, r := range ga {
+		after[r] = true
+	}
+	for _, r := range gb {
+		if after[r] {
+			continue
+		}
+		f := strings.Split(r, "|") // gateway|service|kind
+		if len(f) == 3 && (lower(f[1]) == lower(q.Service) || f[1] == "*") {
+			return true
+		}
+	}
+	return false
+}
+
+// shapeOfWide: Part B mechanisms first, then the shared ones.
+func shapeOfWide(q *query, trees []string, b, a *state.VerifStoreTables, gb, ga []string, ob, oa obs) string {
+	switch q.Kind {
+	case "NodeServicesByID":
+		// lookup by node ID: the node kept its name but was given another ID (no node was deleted, so the
+		// extinction index the code falls back to did not move)
+		for _, n := range b.Nodes {
+			if lower(string(n.ID)) != lower(q.Node) {
+				continue
+			}
+			for _, m := range a.Nodes {
+				if lower(m.Node) == lower(n.Node) && m.PeerName == n.PeerName && lower(string(m.ID)) != lower(q.Node) {
+					return "catalog:node-services:lookup-by-id:node-id-replaced-in-place"
+				}
+			}
+		}
+	case "ServiceDump":
+		if q.Peer != "" {
+			return "catalog:service-dump:peer-query-reads-local-table-indexes"
+		}
+	case "ExportedServicesForPeer":
+		if oa.idx == 0 {
+			return "peering:exported-services-for-peer:index-0-when-peering-absent"
+		}
+	case "ConnectServiceNodes", "CheckConnectServiceNodes", "ServiceGateways", "CheckIngressServiceNodes":
+		if gatewayLinkRemoved(q, gb, ga) {
+			return "gateway-services:mapping-row-removed:index-over-remaining-rows-only"
+		}
+		if q.Peer == "" && q.Kind == "CheckConnectServiceNodes" && proxyNameExtinct(q, b, a) {
+			return "catalog:connect-health:proxy-service-name-extinct:index-over-remaining-names-only"
+		}
+		if q.Peer == "" && q.Kind == "ConnectServiceNodes" && (hasProxyFor(q, b) || hasProxyFor(q, a)) {
+			return "catalog:connect-service-nodes:index-of-target-name-not-of-proxy-instances"
+		}
+	}
+	return shapeOf(q, trees, b, a, ob, oa)
+}
+
 func shapeOf(q *query, trees []string, b, a *state.VerifStoreTables, ob, oa obs) string {
 	switch q.Kind {
 	case "NodeServices", "NodeServiceList":
 		// Store.nodeServices: a name shorter than minUUIDLookupLen that is not found returns index 0
-		if len(q.Node) < 2 && oa.idx == 0 && oa.res == "-" {
+		if len(q.Node) < 2 && oa.idx == 0 && (oa.res == "-" || oa.res == "nil") {
 			return "catalog:node-services:name-shorter-than-2:index-0-when-node-absent"
 		}
 	case "ServicesJoined":
